@@ -76,14 +76,15 @@ fn exercise(style: ProgressStyle, nticks: u64, hist: &[String], stats: &mut Stat
         return Err(mk(format!("accepted style panics in get_final_tick_str: {}", panic_class(&p)), "get_final_tick_str()".into(), p));
     }
     let mut h = 0u64;
-    for w in [1u16, 5, 80] {
+    for w in [0u16, 1, 5, 80] {
         let catcher = LineCatcher::new(w);
         for (pos, len) in [(0u64, Some(0u64)), (0, Some(5)), (3, Some(5)), (5, Some(5)), (9, Some(5)), (u64::MAX, Some(u64::MAX)), (7, None)] {
-            for status in 0..3 {
-                let step = format!("draw at width {w} pos {pos} len {:?} status {status}", len);
+            for status in 0..4 {
+                let msg = if status == 3 { "" } else { "msg" };
+                let step = format!("draw at width {w} pos {pos} len {:?} status {status} message {:?}", len, msg);
                 let st = style.clone();
                 let r = catch(|| {
-                    let pb = bar_on(&catcher, len, st).with_position(pos).with_message("msg").with_prefix("p");
+                    let pb = bar_on(&catcher, len, st).with_position(pos).with_message(msg).with_prefix("p");
                     let mut out = Vec::new();
                     for _ in 0..=(2 * nticks + 1).min(12) {
                         pb.tick();
@@ -110,7 +111,7 @@ fn exercise(style: ProgressStyle, nticks: u64, hist: &[String], stats: &mut Stat
 
 pub fn run(tier: Tier, shard: Shard, stats: &mut Stats) {
     let mut builds: Vec<Build> = vec![Build::Plain];
-    for s in seqs(&['a', '好', '\u{200b}'], 3) {
+    for s in seqs(&['a', '好', '\u{200b}', '\u{301}'], 3) {
         builds.push(Build::TickChars(s.into_iter().collect()));
     }
     for v in seqs(&["", "a", "ab", "好"], 3) {
